@@ -130,11 +130,15 @@ def r13(repo, rep):
                construct="%s drain loop" % name, detail="" if ok else "no plain draining loop over the queue")
 
 
-def _is_queue(repo, func, recv):
+def _is_queue(repo, func, recv, _seen=None):
     """recv is a Name bound to myQueue(...) in func, or a parameter named Q that
     every caller feeds from a myQueue (handlers receive Q in their args tuple)."""
     if not isinstance(recv, ast.Name):
         return False
+    _seen = _seen if _seen is not None else set()
+    if (func.qual, recv.id) in _seen:
+        return True          # a cycle of handlers / helpers passing the queue around: decided by the other feeders
+    _seen.add((func.qual, recv.id))
     for n in own_nodes(func.node):
         if isinstance(n, ast.Assign) and isinstance(n.value, ast.Call) and attr_chain(n.value.func) == "myQueue":
             if any(isinstance(t, ast.Name) and t.id == recv.id for t in n.targets):
@@ -152,7 +156,7 @@ def _is_queue(repo, func, recv):
                 if act.id != recv.id:
                     return False
                 continue
-            if not _is_queue(repo, s.caller, act):
+            if not _is_queue(repo, s.caller, act, _seen):
                 return False
         return True
     return False
@@ -491,8 +495,7 @@ def _set_vars(fnode):
                     (isinstance(v, ast.Call) and isinstance(v.func, ast.Attribute) and v.func.attr in SET_METHODS
                      and _is_set_expr(v.func.value, sets)) or \
                     (isinstance(v, ast.Name) and v.id in sets) or \
-                    (isinstance(v, ast.BinOp) and isinstance(v.op, (ast.BitOr, ast.BitAnd, ast.Sub, ast.BitXor))
-                     and any(isinstance(x, ast.Name) and x.id in sets for x in (v.left, v.right)))
+                    (isinstance(v, ast.BinOp) and _is_set_expr(v, sets))
                 if is_set and n.targets[0].id not in sets:
                     sets.add(n.targets[0].id)
                     changed = True
@@ -509,6 +512,13 @@ def _is_set_expr(e, sets):
     if isinstance(e, ast.Call) and isinstance(e.func, ast.Attribute) and e.func.attr in SET_METHODS \
             and _is_set_expr(e.func.value, sets):
         return True
+    if isinstance(e, ast.BinOp) and isinstance(e.op, (ast.BitOr, ast.BitAnd, ast.Sub, ast.BitXor)):
+        # set algebra: the result is a plain (hash-ordered) set as soon as one operand is a set, a set display or a
+        # dict keys()/items() view (`d.keys() - {x}` is a set, not a view)
+        def viewish(x):
+            return isinstance(x, ast.Call) and isinstance(x.func, ast.Attribute) and x.func.attr in ("keys", "items") and not x.args
+        if any(_is_set_expr(x, sets) or viewish(x) for x in (e.left, e.right)):
+            return True
     return False
 
 
